@@ -16,11 +16,13 @@ PROP = {
         job("mux-enum", "app", "./internal/proxymux/", "proxymux", MUXF, "^TestVerifC18MuxEnum$",
             ["mux-enum"], race=False, timeout_quick=600, timeout_thorough=3600),
         job("socks5", "app", "./internal/socks5/", "socks5",
-            ["harness/app/internal/socks5/c18_mock_test.go", "harness/app/internal/socks5/c18_socks5_test.go"],
-            "^TestVerifC18Socks", ["socks5-gate", "socks5-relay"], race=False, timeout_quick=600, timeout_thorough=3600),
+            ["harness/app/internal/socks5/c18_mock_test.go", "harness/app/internal/socks5/c18_socks5_test.go",
+             "harness/app/internal/socks5/c18_history_test.go"],
+            "^TestVerifC18Socks", ["socks5-gate", "socks5-relay", "socks5-history"], race=False, timeout_quick=600, timeout_thorough=3600),
         job("http", "app", "./internal/http/", "http",
-            ["harness/app/internal/http/c18_mock_test.go", "harness/app/internal/http/c18_http_test.go"],
-            "^TestVerifC18HTTP", ["http-gate", "http-relay"], race=False, timeout_quick=600, timeout_thorough=3600),
+            ["harness/app/internal/http/c18_mock_test.go", "harness/app/internal/http/c18_http_test.go",
+             "harness/app/internal/http/c18_history_test.go"],
+            "^TestVerifC18HTTP", ["http-gate", "http-relay", "http-history"], race=False, timeout_quick=600, timeout_thorough=3600),
         job("mux-parts", "app", "./internal/proxymux/", "proxymux", MUXF, "^TestVerifC18Mux(Handover|Bytes|E2E)$",
             ["mux-handover", "mux-bytes", "mux-e2e"], race=False, timeout_quick=600, timeout_thorough=3600),
         # own child: the outcome under test can be a process-fatal panic inside a mux goroutine
@@ -47,7 +49,14 @@ PROP = {
              "wrong-then-right, ':' only, 'user:' only; single-connection cases are additionally truncated / mutated / "
              "replaced by random bytes. Every stream is handed to the server in one of 7 chunkings (one read, 1-byte reads "
              "through the header, random splits, random splits with zero-length reads, split at the header end, header "
-             "plus k payload bytes, all 1-byte). socks5-relay / http-relay: well-formed CONNECT with and without AuthFunc, "
+             "plus k payload bytes, all 1-byte). socks5-history / http-history: ONE Server lives through a sequence of connections run one after "
+             "the other: 1..3 credentials X are accepted, then 4..9 near-misses of each X that the AuthFunc never accepted "
+             "(HTTP: Base64 text of X with the case of one/some/all letters flipped - only variants that still decode to "
+             "something else - also under basic/BASIC, all-lower/all-upper token; both: password prefix/suffix/extension/"
+             "case variant, user case variant, other user with X's password, blank/NUL added, user|pass boundary shifted, "
+             "swapped), verbatim replays of X (positive control), X replayed after revocation (counted, not judged) and "
+             "near-misses after the revocation; oracle: dial/udp_open of connection j => earlier auth_ok for exactly the "
+             "credential j presented; AuthFunc calls are counted. socks5-relay / http-relay: well-formed CONNECT with and without AuthFunc, "
              "payload sizes 0,1,2,7,8,9,255,256,4095..4097,32767..32769,65535,65536 and random 0..64 KiB crossed with the 7 "
              "chunkings (HTTP also with Content-Length and a >4 KiB header): bytes recorded by the mock upstream == payload, "
              "bytes the client got after the reply are a prefix of the upstream's scripted reply. "
